@@ -48,7 +48,7 @@ ASSUMPTIONS = [
 ]
 WORKERS = {"quick": 16, "thorough": 16}
 REQUIRE = {"requests": 400, "responses_checked": 500, "finals_seen": 300, "pending_seen": 120,
-           "handler_raised": 20, "msgid_0_or_65535": 30, "gen_requests": 150, "n_requests": 60,
+           "handler_raised": 20, "handler_raised_base_exception": 5, "msgid_0_or_65535": 30, "gen_requests": 150, "n_requests": 60,
            "no_final_excused": 5, "multi_response_requests": 60, "rq_C-ECHO": 5, "rq_C-STORE": 5, "rq_C-FIND": 100,
            "rq_C-GET": 40, "rq_C-MOVE": 40, "rq_N-GET": 8, "rq_N-SET": 8, "rq_N-ACTION": 8, "rq_N-CREATE": 8,
            "rq_N-DELETE": 5, "rq_N-EVENT-REPORT": 8}
@@ -84,6 +84,8 @@ def check(case, obs):
         c["msgid_0_or_65535"] = 1
     if H.hlog_has(obs, "raise"):
         c["handler_raised"] = 1
+        if case.get("exc_class"):
+            c["handler_raised_base_exception"] = 1
     if len(msgs) > 1:
         c["multi_response_requests"] = 1
     first_final = None
